@@ -6,6 +6,7 @@ import (
 	"fmt"
 	"hash"
 	"hash/fnv"
+	"os"
 	"regexp"
 	"sort"
 	"strings"
@@ -41,6 +42,7 @@ func (e Event) Kind() string {
 type parkEntry struct {
 	key, actor string
 	ch         chan struct{}
+	gate       func() bool // nil = always enabled
 }
 
 // Ctl is the controller of one run. It lives inside the bubble.
@@ -103,6 +105,8 @@ func (c *Ctl) InitStrategy() {
 // Now is the simulated time since the start of the run.
 func (c *Ctl) Now() time.Duration { return time.Since(c.start) }
 
+var traceLive = os.Getenv("SIM_TRACE") != ""
+
 var portRe = regexp.MustCompile(`(127\.0\.0\.\d+|\[::1?\]|0\.0\.0\.0|localhost):\d+`)
 
 // Normalize removes kernel-chosen values (ephemeral ports) from a message.
@@ -118,6 +122,9 @@ func (c *Ctl) Logf(format string, a ...any) {
 	m := Normalize(fmt.Sprintf(format, a...))
 	c.mu.Lock()
 	c.Log = append(c.Log, fmt.Sprintf("%d@%s ", c.Step, c.Now())+m)
+	if traceLive {
+		fmt.Fprintf(os.Stderr, "[%d] %d@%s %s\n", c.T.Seed, c.Step, c.Now(), m)
+	}
 	c.mu.Unlock()
 }
 
@@ -155,6 +162,16 @@ func (c *Ctl) Violate(oracle, sig, format string, a ...any) {
 // currently parked points.
 func (c *Ctl) Park(key, actor string) {
 	e := &parkEntry{key: key, actor: actor, ch: make(chan struct{})}
+	c.mu.Lock()
+	c.parked = append(c.parked, e)
+	c.mu.Unlock()
+	<-e.ch
+}
+
+// ParkIf is Park whose release is enabled only while gate() holds (gate is
+// evaluated by the controller at quiescent points).
+func (c *Ctl) ParkIf(key, actor string, gate func() bool) {
+	e := &parkEntry{key: key, actor: actor, ch: make(chan struct{}), gate: gate}
 	c.mu.Lock()
 	c.parked = append(c.parked, e)
 	c.mu.Unlock()
@@ -205,11 +222,15 @@ func (c *Ctl) ReleaseAll() {
 func (c *Ctl) enabled() []Event {
 	var evs []Event
 	c.mu.Lock()
-	for _, p := range c.parked {
+	ps := append([]*parkEntry(nil), c.parked...)
+	c.mu.Unlock()
+	for _, p := range ps {
 		p := p
+		if p.gate != nil && !p.gate() {
+			continue
+		}
 		evs = append(evs, Event{Key: p.key, Actor: p.actor, Fire: func() { c.release(p) }})
 	}
-	c.mu.Unlock()
 	for _, s := range c.sources {
 		s(func(e Event) { evs = append(evs, e) })
 	}
